@@ -47,14 +47,14 @@ func newEnv() *zygo.Zlisp {
 
 // evalCaptured runs src in a fresh interpreter with os.Stdout redirected through a pipe.
 func evalCaptured(src string) Obs {
-	o, _, _ := evalCaptured2(src)
+	o, _, _, _ := evalCaptured2(src)
 	return o
 }
 
 // fingerprints of the process-global registry and of the symbol numbers the set-up gave to
 // the registered type names, taken before the program runs (used only to attribute a
 // difference to a listed finding, never to excuse it without one)
-func fingerprints(env *zygo.Zlisp) (reg, sym string) {
+func fingerprints(env *zygo.Zlisp) (reg, sym string, order []string) {
 	// second component of sym: the numbers of the builtin function names (interned by
 	// NewZlispWithFuncs, in sorted order)
 	bn := []string{}
@@ -76,18 +76,23 @@ func fingerprints(env *zygo.Zlisp) (reg, sym string) {
 	}
 	sort.Strings(names)
 	h1, h2 := fnv.New64a(), fnv.New64a()
+	nums := map[string]int{}
 	for _, n := range names {
 		h1.Write([]byte(n + "\x00"))
-		fmt.Fprintf(h2, "%s=%d;", n, env.MakeSymbol(n).Number())
+		nums[n] = env.MakeSymbol(n).Number()
+		fmt.Fprintf(h2, "%s=%d;", n, nums[n])
 	}
+	order = append([]string{}, names...)
+	sort.SliceStable(order, func(i, j int) bool { return nums[order[i]] < nums[order[j]] })
 	for _, n := range zygo.ListRegisteredTypes {
 		h1.Write([]byte(n + "\x01"))
 	}
-	return fmt.Sprintf("%d:%x", len(zygo.ListRegisteredTypes), h1.Sum64()), fmt.Sprintf("%x", h2.Sum64())
+	return fmt.Sprintf("%d:%x", len(zygo.ListRegisteredTypes), h1.Sum64()), fmt.Sprintf("%x", h2.Sum64()), order
 }
 
-func evalCaptured2(src string) (Obs, string, string) {
+func evalCaptured2(src string) (Obs, string, string, []string) {
 	var reg, sym string
+	var order []string
 	realOut := os.Stdout
 	r, w, err := os.Pipe()
 	if err != nil {
@@ -105,7 +110,7 @@ func evalCaptured2(src string) (Obs, string, string) {
 			}
 		}()
 		env := newEnv()
-		reg, sym = fingerprints(env)
+		reg, sym, order = fingerprints(env)
 		if strings.HasPrefix(src, cliPrefix) {
 			// the command-line driver: zygo -countcalls <script> (prints the call counters)
 			runCli(strings.TrimPrefix(src, cliPrefix))
@@ -140,7 +145,7 @@ func evalCaptured2(src string) (Obs, string, string) {
 	case lib.OutBudget:
 		o.E = "BUDGET"
 	}
-	return o, reg, sym
+	return o, reg, sym, order
 }
 
 // disturb creates k other interpreters and uses them: struct declarations, record types,
@@ -186,8 +191,8 @@ func runChild(mode, progsPath, resPath string, sel, nreps int, order uint64, pro
 	}
 	defer f.Close()
 	emit := func(id string, rep int, src string) {
-		o, reg, sym := evalCaptured2(src)
-		jb, _ := json.Marshal(Rec{ID: id, Mode: mode, Proc: procIdx, Rep: rep, Obs: o, Reg: reg, Sym: sym})
+		o, reg, sym, order := evalCaptured2(src)
+		jb, _ := json.Marshal(Rec{ID: id, Mode: mode, Proc: procIdx, Rep: rep, Obs: o, Reg: reg, Sym: sym, TypeOrder: order})
 		f.Write(append(jb, '\n'))
 	}
 	zygo.RegisterDemoStructs()
